@@ -244,6 +244,9 @@ def kind_spec(row):
     body += ('pub proof fn lemma_pdec_penc_%d(v: AvpV)\n    requires pok_%d(v),\n'
              '    ensures pdec_%d(penc_%d(v)) is Some, avp_eq(pdec_%d(penc_%d(v))->Some_0, v), //[C03,C10,C11:spec.avp%d.roundtrip]\n'
              '{\n    broadcast use group_spec_seq;\n%s}\n') % (num, num, num, num, num, num, num, lemma_hints(row))
+    body += ('pub proof fn lemma_pdec_ok_%d(p: Seq<u8>)\n    requires pdec_%d(p) is Some,\n'
+             '    ensures pok_%d(pdec_%d(p)->Some_0), penc_%d(pdec_%d(p)->Some_0).len() <= p.len(), //[C10:spec.avp%d.decoded_is_encodable]\n'
+             '{\n    broadcast use group_spec_seq;\n}\n') % (num, num, num, num, num, num, num)
     return body
 
 
